@@ -15,8 +15,9 @@ CFG = dict(
         "re-send on replaced_path_id) == collect_loc_rib_paths_limited(family, N)",
         "no-phantom: every path in any current_paths is listed by collect_loc_rib_paths for that prefix "
         "(nothing filtered / next-hop-invalid is handed out)",
-        "id-unique: notification dest_id == id of that prefix; ids injective over prefixes that hold >=1 path "
-        "(incl. filtered-only ones); id stable while the prefix is never without paths; shard bits",
+        "id-unique: notification dest_id == id of that prefix; ids injective over ALL prefixes that hold >=1 path "
+        "(incl. filtered-only ones; up to 400 live destinations in the allocator shape, so ids span several 64-id "
+        "bitmap words); id stable while the prefix is never without paths; shard bits",
         "deferral: insert during deferral returns NoChange; end_deferral lists every prefix with an eligible path "
         "exactly once with its full list; folded views == RIB right after end_deferral",
         "no panic in any Table mutator (guard)",
@@ -59,10 +60,27 @@ CFG = dict(
             "deferral:held-prefix-checked": 200,
             "id:notification-checked": 12000, "id:injectivity-checked": 37000,
             "phantom:path-checked": 9500, "views-compared": 30000,
+            # allocator shape (part=alloc): ids must leave the first 64-bit bitmap word, whole
+            # 64-id blocks must be released below a block that is still in use, and ids re-issued
+            "alloc-histories": 40,
+            "alloc-histories-with-more-than-64-live-destinations": 35,
+            "alloc-histories-with-whole-block-release-below-live-block": 25,
+            "alloc:whole-block-released-below-live-block": 40,
+            "alloc:whole-block-released-at-tail": 60,
+            "max:live-destinations-in-one-rib": 150,
+            "id:assigned>=64": 4000, "id:assigned>=128": 2000,
+            "notif:dest_id>=64": 10000, "notif:dest_id>=128": 5000,
+            "id:reissued-to-another-prefix": 3000,
+            "block:insert": 250, "block:remove": 100, "block:id-block-remove-all": 80,
+            "block:id-block-remove-keep-highest": 25, "block:id-block-remove-keep-lowest": 25,
         }),
     # quick: 4 x 1300 histories x 40 ops (~1 s per shard)
-    quick=[e1("hist", "c06", "debug", 2, 40), e1("hist", "c06", "release", 2, 40, salt=1)],
+    #        + 4 x 30 allocator-shape histories (200-400 prefixes, 60 ops ~ 1000 Table calls each, ~5 s per debug shard)
+    quick=[e1("hist", "c06", "debug", 2, 40, part="hist"), e1("hist", "c06", "release", 2, 40, salt=1, part="hist"),
+           e1("alloc", "c06", "debug", 2, 40, salt=3, part="alloc"), e1("alloc", "c06", "release", 2, 40, salt=4, part="alloc")],
     # thorough: 16 x 20000 histories x 80 ops; Miri: as many 25-op histories as fit the budget (~1 s per Table call)
-    thorough=[e1("hist", "c06", "debug", 8, 200), e1("hist", "c06", "release", 8, 200, salt=1),
-              e1("miri", "c06", "debug", 8, 90, flavor="miri", scale=0.0005, len=25, salt=2)],
+    #           + 8 x 300 allocator-shape histories (or what fits 150 s)
+    thorough=[e1("hist", "c06", "debug", 8, 200, part="hist"), e1("hist", "c06", "release", 8, 200, salt=1, part="hist"),
+              e1("alloc", "c06", "debug", 4, 150, salt=3, part="alloc"), e1("alloc", "c06", "release", 4, 150, salt=4, part="alloc"),
+              e1("miri", "c06", "debug", 8, 90, flavor="miri", scale=0.0005, len=25, salt=2, part="hist")],
 )
